@@ -28,7 +28,7 @@ REGISTRY = {
         undecided_clauses=["dtype / endianness semantics, object arrays, subclasses and worker-side memmapping end to end are numpy's / loky's; only covered by the bounded native grid"],
     ),
     "C16": dict(
-        packs=["par1", "par2", "par3", "par4"], level="proof",
+        packs=["par1", "par2", "par3", "par4"], level="proof", lemmas=["c16_abandon"],
         replay=dict(script="replay/par.py", args=["C16", "{seed}", "small"], timeout=1500),
         bounded=[dict(name="parallel-configurations", script="replay/par.py", args=["C16", "{seed}", "small"], timeout=1500,
                       bound="real joblib.Parallel on threading/sequential (and a sample of loky) over n_jobs x batch_size x pre_dispatch x return_as grids, failing tasks/inputs, "
@@ -52,7 +52,7 @@ REGISTRY = {
         undecided_clauses=["once a task has failed no further items are taken: the abort flag is read outside the lock in dispatch_one_batch, so one more slice may be pulled by a callback that already passed the test - neither provable at lock granularity nor refutable without a scheduler (undecided clause, not a finding)", "batch_size='auto': the look-ahead bound is proved for a fixed batch size"],
     ),
     "C04": dict(
-        packs=["par1", "par2", "par3", "par4"], level="proof",
+        packs=["par1", "par2", "par3", "par4"], level="proof", lemmas=["c04_error_delivery"],
         replay=dict(script="replay/par.py", args=["C04", "{seed}", "small"], timeout=1500),
         bounded=[dict(name="parallel-configurations", script="replay/par.py", args=["C04", "{seed}", "small"], timeout=1500,
                       bound="real joblib.Parallel on threading/sequential (and a sample of loky) over n_jobs x batch_size x pre_dispatch x return_as grids, failing tasks/inputs, "
